@@ -38,6 +38,30 @@ PROPS["C03"] = dict(
                "global secondary indexes is enumerated by TLC and replayed on both clients; after every step TLC compares Scan and Query "
                "through every index, and DescribeTable's per-index counts, with the index view DEFINED from the base table.",
 )
+PROPS["C05"] = dict(
+    title="conditional writes are decided on the target item only, atomically",
+    quick=[G("M_COND")],
+    thorough=[G("M_COND", cfg="M_COND_t")],
+    own=[parts("Outcome", "ErrClass", "CcfItem", "Base", "Index", "IdxCount", "Data")],
+    design_ref="DESIGN.md 6 C05",
+    level_text="Conditional Put / Update / Delete for every condition of a 6-entry menu in every state of a bounded table (target present "
+               "or absent, bystanders satisfying or not satisfying the condition) are enumerated by TLC and replayed on both clients; TLC "
+               "judges success / ConditionalCheckFailed against the condition evaluated on the target item only, the carried item, and - after "
+               "every refused write - that the full observation of table and index is unchanged.",
+)
+PROPS["C08"] = dict(
+    title="a request that fails leaves no trace",
+    quick=[G("M_FAIL")],
+    thorough=[G("M_FAIL", cfg="M_FAIL_t")],
+    own=[parts("Base", "Index", "IdxCount", "IdxDesc", "Desc", "Catalog")],
+    when=lambda f: f["oc"] != "ok",      # C08 speaks about calls that fail; a wrongly accepted request belongs to C07/C13/C16
+    level="fault_enumeration",
+    design_ref="DESIGN.md 6 C08",
+    level_text="Every class of failing request (validation, key and index-key type mismatch, ill-typed update, malformed condition, unknown "
+               "table, unused placeholders, refused condition, batch with an invalid request) is issued in every state of a bounded table with "
+               "a typed secondary index; TLC requires each to fail and the complete observation (GetItem of every key, Scan, every index, "
+               "DescribeTable) after it to be that of the unchanged specification state.",
+)
 
 # properties deliberately not claimed, with the reason (none so far: unbuilt ones get a work-in-progress reason)
 NOT_CLAIMED = {}
